@@ -223,7 +223,11 @@ def build(tier, seed):
         return core.discharged("shadow-execution", queries=40)
     obs.append(Ob("C08.generators", "proof", [GEN + ":create_layer_of_gates", GEN + ":apply_gate_to_qubits", GEN + ":add_ancilla_register"], generators,
                   "layers hold one gate per qubit with its own parameter row; apply_gate_to_qubits adds one gate per DISTINCT qubit (unordered, duplicated collections), uses each row once, "
-                  "keeps existing operations and the input circuit; ancilla registers widen by exactly a and keep the action (symbolic parameter rows)", timeout=600))
+                  "keeps existing operations and the input circuit; ancilla registers widen by exactly a and keep the action (symbolic parameter rows)", timeout=600,
+                  fallback=vprop.enum_ob("x", [], _gen_colls, _check_gen_coll, "").run))
+    obs.append(vprop.enum_ob("C08.generators.enum", [GEN + ":apply_gate_to_qubits"], _gen_colls, _check_gen_coll,
+                             "bounded-exhaustive: apply_gate_to_qubits on EVERY sequence of length <= 4 over three qubit indices (all duplicate patterns, adjacent or not, both container "
+                             "kinds): one gate per distinct qubit, each parameter row used once, existing operations and input circuit untouched"))
     # ---- all circuit lengths / widths / control positions: structure over the abstract gate model (Engine V)
     from vfw import cmodel, vcontract as vc
     cs = cmodel.contracts()
@@ -244,6 +248,42 @@ def build(tier, seed):
                              "bounded: native numeric inverse / controlled on a 4-qubit circuit with every control position; i-th parameter row on qubit i for layers up to 2000 qubits "
                              "(CPython set order)", exhaustive=False, timeout=900))
     return obs
+
+
+def _check_gen_coll(coll):
+    """natively: apply_gate_to_qubits on an unordered collection with duplicates anywhere: exactly one new gate per DISTINCT qubit, every parameter row
+    used exactly once, existing operations kept in place, input circuit untouched"""
+    import warnings
+    from orquestra.quantum.circuits import Circuit, RZ, H, X, CNOT, apply_gate_to_qubits
+    coll = list(coll)
+    uniq = sorted(set(coll))
+    base_ops = [X(0), CNOT(0, 3)]
+    base = Circuit(list(base_ops), n_qubits=4)
+    rows = [[0.05 + 0.1 * i] for i in range(len(uniq))]
+    for container in (list, tuple):
+        with warnings.catch_warnings():
+            warnings.simplefilter("ignore")
+            c = apply_gate_to_qubits(base, container(coll), RZ, rows)
+            c2 = apply_gate_to_qubits(base, container(coll), H)
+        if list(base.operations) != base_ops or base.n_qubits != 4:
+            return False, "apply_gate_to_qubits modified the input circuit"
+        for cc, withp in ((c, True), (c2, False)):
+            new = cc.operations[2:]
+            if list(cc.operations[:2]) != base_ops or sorted(o.qubit_indices for o in new) != [(q,) for q in uniq]:
+                return False, f"apply_gate_to_qubits({coll}): new gates act on {[o.qubit_indices for o in new]}, expected one per distinct qubit {uniq}"
+            if withp and sorted(float(o.params[0]) for o in new) != sorted(r[0] for r in rows):
+                return False, f"apply_gate_to_qubits({coll}): parameter rows {[o.params for o in new]} are not the given rows used once each"
+    return True, "ok"
+
+
+def _gen_colls():
+    import itertools as it
+    for L in range(1, 5):
+        for coll in it.product((0, 2, 5), repeat=L):
+            yield coll
+    yield (4, 0, 1, 4, 0)
+    yield (3, 1, 3, 1)
+    yield tuple(range(6)) + (2,)
 
 
 def _native_gen(coll):
